@@ -8,7 +8,7 @@ from common import prove, driver
 
 P = "Matid.Props.C13."
 THEOREMS = [P + t for t in ("fresh_init", "fresh_step", "getDim_fresh", "fresh_run", "getDim_correct", "stale_cache_witness",
-                            "source_invalidates", "source_forwards_radii", "constructors_forward_radii")]
+                            "source_invalidates", "source_forwards_radii", "source_aligned_and_private", "constructors_forward_radii")]
 TRUSTED = ["Lean 4 kernel", "axioms: propext, Classical.choice, Quot.sound at most (audited per run)",
            "tools/gen_cluster_rule.py (AST: cache fill, setter invalidation, radii forwarding)",
            "hand-written state machine MatidModel/ClusterCache.lean tied by operation histories on the real class",
@@ -19,7 +19,24 @@ def sbc_family(rng, k, thin_gap=False):
     """inputs on which merging / localisation / outlier removal really drop atoms"""
     from ase.build import bulk, fcc100
     from ase import Atoms
-    kind = k % 8
+    kind = k % 9
+    if kind == 8:        # crystalline rod: ONE periodic direction, bonded to its own image along it
+        el, st, lat = [("Cu", "fcc", 3.6), ("NaCl", "rocksalt", 5.64), ("Fe", "bcc", 2.87)][int(rng.integers(0, 3))]
+        ax = int(rng.integers(0, 3))
+        rep = [2 if st == "rocksalt" else 3] * 3
+        rep[ax] = 3 if st == "rocksalt" else 4
+        a = bulk(el, st, a=lat, cubic=True) * tuple(rep)
+        cell = np.array(a.get_cell())
+        for j in range(3):
+            if j != ax:
+                cell[j, j] += float(rng.uniform(8, 12))
+        a.set_cell(cell)
+        pbc = [False] * 3
+        pbc[ax] = True
+        a.set_pbc(pbc)
+        if rng.random() < 0.5:
+            a = a[rng.permutation(len(a))]
+        return a, "rod-1D"
     if kind >= 6:        # substituted / defective periodic crystals: overlapping regions that get MERGED
         from ase.build import bulk as _bulk
         el, st, lat, sub = [("Si", "diamond", 5.43, 32), ("Cu", "fcc", 3.6, 47), ("NaCl", "rocksalt", 5.64, 19), ("Al", "fcc", 4.05, 31)][int(rng.integers(0, 4))]
@@ -82,7 +99,7 @@ def histories(ctx, n_hist):
     rng = np.random.default_rng(ctx.seed + 13)
     lines, runs = [], []
     for h in range(n_hist):
-        a, kind = sbc_family(rng, int(rng.integers(0, 8)))
+        a, kind = sbc_family(rng, int(rng.integers(0, 9)))
         if len(a) > 70:
             a = a[[int(i) for i in rng.choice(len(a), 70, replace=False)]]
         preset = ["covalent", "vdw", None][h % 3]
@@ -93,7 +110,7 @@ def histories(ctx, n_hist):
         a.wrap()
         dist = G.get_distances(a, radii)
         n0 = int(rng.integers(2, min(len(a), 25) + 1))
-        idx0 = sorted(int(i) for i in rng.choice(len(a), n0, replace=False))
+        idx0 = [int(i) for i in rng.choice(len(a), n0, replace=False)]      # NOT sorted: `indices` is list(set(...)) in the library, in table order
         ops, cur = [], list(idx0)
         for _ in range(int(rng.integers(2, 7))):
             r = rng.random()
@@ -103,7 +120,7 @@ def histories(ctx, n_hist):
                 ops.append("D")
             else:
                 keep = max(1, len(cur) - int(rng.integers(1, 4)))
-                cur = sorted(int(i) for i in rng.choice(cur, keep, replace=False))
+                cur = [int(i) for i in rng.choice(cur, keep, replace=False)]
                 ops.append("S:" + ".".join(map(str, cur)))
         if "D" not in ops:
             ops.append("D")
@@ -187,14 +204,18 @@ def oracle_clusters(ctx, n_runs, directed=False):
                 d1 = c.get_dimensionality()
                 d2 = c.get_dimensionality()
                 fresh = G.get_dimensionality(c.get_atoms(), thr, radii=np.asarray(radii_full)[c.indices])
+                # the same, without the class: the atoms of the input in index order (dimensionality does not depend on the order)
+                srt = sorted(int(i) for i in c.indices)
+                aw = a.copy()
+                fresh2 = G.get_dimensionality(aw[srt], thr, radii=np.asarray(radii_full)[srt])
             except Exception as e:  # noqa
                 bad.append({"kind": kind, "complaint": "exception %s: %s" % (type(e).__name__, str(e)[:120]), "atoms": crystals.atoms_to_json(a),
                             "radii": str(radii_arg) if isinstance(radii_arg, str) else "custom", "bond_threshold": thr, "indices": [int(i) for i in c.indices]})
                 continue
             if c._region is not None and len(c.indices) != len(set(c._region.get_basis_indices()) | set(c.indices)):
                 dropped += 1
-            if d1 != fresh or d1 != d2:
-                bad.append({"kind": kind, "complaint": "shortcut %s (repeated %s), fresh evaluation %s" % (d1, d2, fresh), "atoms": crystals.atoms_to_json(a),
+            if d1 != fresh or d1 != d2 or d1 != fresh2:
+                bad.append({"kind": kind, "complaint": "shortcut %s (repeated %s), fresh evaluation %s, evaluation on the input's atoms in index order %s" % (d1, d2, fresh, fresh2), "atoms": crystals.atoms_to_json(a),
                             "radii": str(radii_arg) if isinstance(radii_arg, str) else np.asarray(radii_arg).tolist(), "bond_threshold": thr,
                             "indices": [int(i) for i in c.indices], "extra": extra, "merged": bool(getattr(c, "_merged", False))})
     ctx.coverage["clusters_that_lost_atoms_after_tracking"] = dropped
